@@ -9,11 +9,20 @@ Model: `NoKVModel/Client/Perc.lean` (region stores: the Percolator handlers of p
 and `NoKVModel/Client/TwoPC.lean` (the client of raftstore/client/client.go as a step machine;
 environment steps = network delivers / drops / loses the reply of / answers NotLeader to / re-
 delivers an RPC, the client is restarted with the same versions, any resolver runs
-CheckTxnStatus on the primary with any current ts and ResolveLock with what it learned, any other
-transaction prewrites any of the keys or is rolled back on it — `foreign` / `foreignAbort`).  The
-theorems quantify over every transaction (any number of keys and regions, any primary, any order
-of the regions), every initial store without traces of the transaction, and every finite sequence
-of such steps — i.e. every reachable state; no bound.
+CheckTxnStatus on the primary with any current ts and ResolveLock with what it learned, and ANY
+OTHER transaction of any other client sends any write-path request — Prewrite, Commit,
+BatchRollback, ResolveLock, CheckTxnStatus — on any key at any point: `Op.other`).
+
+Several clients: the theorems are stated for an arbitrary transaction T against an environment
+that is *every* possible behaviour of all other clients (their requests are not even required to
+follow the protocol; a multi-key request is the sequence of its per-key parts).  The one thing
+asked of the environment is what a timestamp oracle guarantees: another transaction's start and
+commit timestamps are not T's (`Op.Distinct`).  Hence the statements hold for every transaction
+of every client of a system in which each client runs the protocol of `TwoPC.lean`.
+
+The theorems quantify over every transaction (any number of keys and regions, any primary, any
+order of the regions), every initial store without traces of the transaction, and every finite
+sequence of such steps — i.e. every reachable state; no bound.
 
 Only property theorems, non-vacuity examples, `…_partial` and `…_fails_asis…` live here; helper
 lemmas are in `NoKVModel/Client/{Key,Store,Handler,Sys}Lemmas.lean`.
@@ -46,13 +55,13 @@ and first, a failed commit stops the client, `Commit` refuses a rolled-back tran
   reply, exhausted its NotLeader retries or simply has not got there — no read of any key of the
   transaction at any version is served from a commit record of the transaction. -/
 theorem C28_atomic (c : ClientCfg) (hc : c.Good) (t : Txn) (wf : TxnWF t) (s0 : Store) (fr : Fresh t s0)
-    (ops : List Op) :
+    (ops : List Op) (hd : ∀ op ∈ ops, op.Distinct t) :
     (PrimaryCommitted t (run c t (Sys.init s0) ops).store →
       ∀ m ∈ t.muts, lockBlocks ((run c t (Sys.init s0) ops).store m.key) t.cv = false →
         get c.perc ((run c t (Sys.init s0) ops).store m.key) t.cv = expected m) ∧
     (¬ PrimaryCommitted t (run c t (Sys.init s0) ops).store →
       ∀ m ∈ t.muts, Invisible c.perc t (run c t (Sys.init s0) ops).store m.key) := by
-  have inv := (SInv.run_inv hc wf ops (SInv.init (c := c) wf fr)).1
+  have inv := (SInv.run_inv hc wf ops hd (SInv.init (c := c) wf fr)).1
   generalize (run c t (Sys.init s0) ops) = y at inv ⊢
   constructor
   · intro hP m hm hnb
@@ -77,19 +86,58 @@ theorem C28_atomic (c : ClientCfg) (hc : c.Good) (t : Txn) (wf : TxnWF t) (s0 : 
 expired or missing), no later step — client retry with the same versions, duplicate delivery of
 any earlier RPC, further resolver activity — makes any key of the transaction visible. -/
 theorem C28_final (c : ClientCfg) (hc : c.Good) (t : Txn) (wf : TxnWF t) (s0 : Store) (fr : Fresh t s0)
-    (ops later : List Op) (hrb : PrimaryRolledBack t (run c t (Sys.init s0) ops).store) :
+    (ops later : List Op) (hd : ∀ op ∈ ops ++ later, op.Distinct t)
+    (hrb : PrimaryRolledBack t (run c t (Sys.init s0) ops).store) :
     ∀ m ∈ t.muts, Invisible c.perc t (run c t (Sys.init s0) (ops ++ later)).store m.key := by
-  have inv1 := (SInv.run_inv hc wf ops (SInv.init (c := c) wf fr)).1
-  have h2 := SInv.run_inv hc wf later inv1
+  have hd1 : ∀ op ∈ ops, op.Distinct t := fun o ho => hd o (List.mem_append_left _ ho)
+  have hd2 : ∀ op ∈ later, op.Distinct t := fun o ho => hd o (List.mem_append_right _ ho)
+  have inv1 := (SInv.run_inv hc wf ops hd1 (SInv.init (c := c) wf fr)).1
+  have h2 := SInv.run_inv hc wf later hd2 inv1
   have hrun : run c t (Sys.init s0) (ops ++ later) = run c t (run c t (Sys.init s0) ops) later := by
     simp [run, List.foldl_append]
   have hR : HasR t.start ((run c t (Sys.init s0) (ops ++ later)).store t.primary) := by
-    rw [hrun]; exact (h2.2 t.primary).r hrb
+    rw [hrun]; exact (h2.2 t.primary wf.primIsKey).r hrb
   have hnc : ¬ PrimaryCommitted t (run c t (Sys.init s0) (ops ++ later)).store := by
     intro hC
-    have inv := (SInv.run_inv hc wf (ops ++ later) (SInv.init (c := c) wf fr)).1
+    have inv := (SInv.run_inv hc wf (ops ++ later) hd (SInv.init (c := c) wf fr)).1
     exact inv.g.not_C_R_prim wf ⟨hC, hR⟩
-  exact (C28_atomic c hc t wf s0 fr (ops ++ later)).2 hnc
+  exact (C28_atomic c hc t wf s0 fr (ops ++ later) hd).2 hnc
+
+/-- **Readers at any timestamp (headline).**  In every reachable state and for every read
+version `v`:
+
+* `v` below the commit version: no key of the transaction is ever served from its commit record;
+* `v` at or above the commit version and the primary committed: on EVERY key of the transaction
+  a reader that is not blocked by a lock at `v` is served the transaction's commit record or a
+  record committed later by someone else — never an older one, so no reader sees the
+  transaction's write on one key and misses it on another once the locks in its way are resolved;
+* the primary not committed: `C28_atomic` — no key is served from a commit record of the
+  transaction at any version.
+
+Together with `C28_atomic`: the transaction's writes are visible on all of its keys or on none,
+and which of the two is decided by the primary key alone. -/
+theorem C28_readers_any_ts (c : ClientCfg) (hc : c.Good) (t : Txn) (wf : TxnWF t) (s0 : Store) (fr : Fresh t s0)
+    (ops : List Op) (hd : ∀ op ∈ ops, op.Distinct t) :
+    (∀ m ∈ t.muts, ∀ v, v < t.cv → ∀ w,
+        readVisible c.perc ((run c t (Sys.init s0) ops).store m.key).writes v = some w →
+        w.startTs = t.start → w.kind = .rollback) ∧
+    (PrimaryCommitted t (run c t (Sys.init s0) ops).store →
+      ∀ m ∈ t.muts, ∀ v, t.cv ≤ v → lockBlocks ((run c t (Sys.init s0) ops).store m.key) v = false →
+        ∃ w, readVisible c.perc ((run c t (Sys.init s0) ops).store m.key).writes v = some w ∧
+          (w = ⟨t.cv, t.start, m.kind⟩ ∨ t.cv < w.commitTs)) := by
+  have inv := (SInv.run_inv hc wf ops hd (SInv.init (c := c) wf fr)).1
+  generalize (run c t (Sys.init s0) ops) = y at inv ⊢
+  constructor
+  · intro m hm v hv w hr hs
+    exact read_lt_invisible c.perc (inv.g.k m hm) hv hr hs
+  · intro hP m hm v hv hnb
+    have hC : HasC t.start (y.store m.key) := by
+      rcases inv.g.d hP m hm with ⟨l, hl, hts⟩ | hC
+      · exfalso
+        simp only [lockBlocks, hl, decide_eq_false_iff_not] at hnb
+        exact hnb (by rw [hts]; exact Nat.le_trans (Nat.le_of_lt wf.lt) hv)
+      · exact hC
+    exact read_ge_of_committed c.perc (wf.ok hm) (inv.g.k m hm) hC hv
 
 /-! ### the as-is client: witnesses (also replayed on the real client: corpus/C28/finding-*.ops) -/
 
@@ -148,18 +196,32 @@ theorem C28_fails_asis_commit_after_rollback (c : ClientCfg) (hc : c.perc.commit
 
 /-! ### what holds for every configuration -/
 
-/-- **Per-key part, every configuration (as-is included).**  In every reachable state and for
-every key of the transaction: the key holds at most one record of the transaction — the rollback
-record at the start ts or the commit record at exactly the commit version with the mutation's
-kind — never both; and a key that holds the commit record, read at the commit version with no
-lock in the way, returns exactly the transaction's write.
+/- FULL-STRENGTH STATEMENT the property demands (proved above for `ClientCfg.Good`, which is what
+the extractor reads off the repaired tree, as `C28_atomic` + `C28_readers_any_ts` + `C28_final`):
 
-MISSING with respect to C28 (true only under `ClientCfg.Good`, see `C28_atomic`): the agreement
-*between* keys — that a secondary is committed only if the primary is, and rolled back only if
-the primary is.  `C28_fails_asis_grouped` / `C28_fails_asis_commit_after_rollback` show that this
-part fails on the pinned tree. -/
+  for EVERY transaction T over any key set spread over any regions, with any primary;
+  for any interleaving with the requests of other clients' transactions (`Op.other`: any
+    Prewrite / Commit / BatchRollback / ResolveLock / CheckTxnStatus on any key at any point);
+  for any failure / retry / region-error point in prewrite, primary commit, secondary commits and
+    resolve (drop, lost reply, NotLeader, duplicate delivery, client restart with the same
+    versions, resolvers acting on the primary's status at any moment):
+  T's writes become visible on ALL of its keys or on NONE, the primary key alone decides which;
+  a reader at any timestamp, once no lock is in its way, never observes a strict subset; and an
+  aborted transaction never becomes visible later.
+
+WHAT THE LEMMA BELOW LACKS with respect to it: it holds for every configuration (also for the
+region-grouped / commit-after-rollback shapes of the pinned tree, where the full statement is
+false: `C28_fails_asis_*`), and therefore only speaks about each key in isolation — at most one
+record of T per key, commit record at exactly the commit version with the mutation's kind, never
+both commit and rollback, a committed key reads as T's write.  It says nothing about the
+agreement BETWEEN keys (secondary committed ⇒ primary committed, secondary rolled back ⇒ primary
+rolled back, primary committed ⇒ every key locked-or-committed): that agreement is `GInv`
+(`StoreLemmas.lean`), provable only under `ClientCfg.Good`.  It is kept as a lemma: the per-key
+half of the invariant, valid on any tree. -/
+
+/-- **Per-key part, every configuration.** -/
 theorem C28_partial_per_key (c : ClientCfg) (_hc : True) (t : Txn) (wf : TxnWF t) (s0 : Store) (fr : Fresh t s0)
-    (ops : List Op) :
+    (ops : List Op) (hd : ∀ op ∈ ops, op.Distinct t) :
     ∀ m ∈ t.muts,
       (∀ w ∈ ((run c t (Sys.init s0) ops).store m.key).writes, w.startTs = t.start →
           w = ⟨t.start, t.start, .rollback⟩ ∨ w = ⟨t.cv, t.start, m.kind⟩) ∧
@@ -174,7 +236,7 @@ theorem C28_partial_per_key (c : ClientCfg) (_hc : True) (t : Txn) (wf : TxnWF t
     · intro w1 h1 _ _ s1 _; exact absurd s1 (fr.norec m hm w1 h1)
     · intro l hl hts; exact absurd ⟨l, hl, hts⟩ (fr.nolock m hm)
     · intro hc; exact absurd hc (not_C_of_noRec (fr.norec m hm))
-  have inv := PInv.run_inv (c := c) wf ops init
+  have inv := PInv.run_inv (c := c) wf ops hd init
   intro m hm
   have hk := inv.k m hm
   exact ⟨hk.recs, not_C_and_R hk, fun hC hnb => get_of_committed c.perc (wf.ok hm) hk hC hnb⟩
@@ -198,5 +260,21 @@ example :
     get ClientCfg.good.perc (y.store 0) 12 = .val 100 ∧ get ClientCfg.good.perc (y.store 1) 12 = .val 101 ∧
     get ClientCfg.good.perc (y.store 2) 12 = .val 102 := by
   refine ⟨⟨⟨12, 10, .put⟩, ?_, rfl, by decide⟩, ?_⟩ <;> decide
+
+/-- two clients: another transaction (start 16, commit 17) runs into our lock on key 2 (refused),
+waits for us to finish, then overwrites key 2.  Readers at 12 see all of ours, readers at 20 see
+ours on keys 0, 1 and the later write on key 2; nobody sees a strict subset. -/
+def twoClients : List Op :=
+  [.deliver, .deliver, .deliver, .other (.prewrite ⟨2, .put, 902⟩ 16 0), .other (.check 2 16 30),
+   .deliver, .deliver, .other (.prewrite ⟨2, .put, 902⟩ 16 0), .other (.commit 2 16 17)]
+
+example : ∀ op ∈ twoClients, op.Distinct wGrouped := by decide
+
+example :
+    let y := run ClientCfg.good wGrouped (Sys.init Store.empty) twoClients
+    get ClientCfg.good.perc (y.store 0) 12 = .val 100 ∧ get ClientCfg.good.perc (y.store 1) 12 = .val 101 ∧
+    get ClientCfg.good.perc (y.store 2) 12 = .val 102 ∧
+    get ClientCfg.good.perc (y.store 0) 20 = .val 100 ∧ get ClientCfg.good.perc (y.store 2) 20 = .val 902 := by
+  decide
 
 end NoKV.Props.C28
